@@ -92,46 +92,71 @@ Proof.
   - intros s [<-|Hin]; [exact H1|exact (H2 s Hin)].
 Qed.
 
-(* the condition under which index i is left alone *)
+(* the condition under which index i is left alone: every dependent strictly later *)
 Definition quiet_at (l : list nat) (k : nat) : Prop :=
-  forall s, In s (succ (nth k l 0)) -> k <= index_of s l.
+  forall s, In s (succ (nth k l 0)) -> k < index_of s l.
 
 (* ------------------------------------------------------------------ one pass *)
-Lemma pass_from_true : forall n i l l' ch', pass_from succ n i l true = (l', ch') -> ch' = true.
+Lemma pass_from_true : forall n i l l' ch', pass_from succ n i l true = PassOk l' ch' -> ch' = true.
 Proof.
   induction n as [|n IH]; intros i l l' ch' H; simpl in H; [now injection H|].
-  destruct (first_dep succ l (nth i l 0)) as [p|]; [destruct (Nat.ltb p i)|]; eauto.
+  destruct (first_dep succ l (nth i l 0)) as [p|]; [|eauto].
+  destruct (Nat.eqb p i); [discriminate|]. destruct (Nat.ltb p i); eauto.
 Qed.
 
 Lemma pass_from_perm : forall n i l ch l' ch', i + n = length l ->
-  pass_from succ n i l ch = (l', ch') -> Permutation l l'.
+  pass_from succ n i l ch = PassOk l' ch' -> Permutation l l'.
 Proof.
   induction n as [|n IH]; intros i l ch l' ch' Hlen H; simpl in H.
   - injection H as <- _. apply Permutation_refl.
   - destruct (first_dep succ l (nth i l 0)) as [p|].
-    + destruct (Nat.ltb_spec p i) as [Hlt|Hge].
+    + destruct (Nat.eqb p i); [discriminate|].
+      destruct (Nat.ltb_spec p i) as [Hlt|Hge].
       * eapply perm_trans; [apply (swap_perm l p i); lia|].
         eapply IH; [|exact H]. rewrite swap_length. lia.
       * eapply IH; [|exact H]. lia.
     + eapply IH; [|exact H]. lia.
 Qed.
 
-(* a pass that reports "no change" performed no swap: the list is unchanged and every index was quiet *)
+(* a pass that reports "no change" performed no swap and raised nothing: the list is unchanged and every index was quiet *)
 Lemma pass_from_nochange : forall n i l ch l',
-  pass_from succ n i l ch = (l', false) ->
+  pass_from succ n i l ch = PassOk l' false ->
   ch = false /\ l' = l /\ forall k, i <= k < i + n -> quiet_at l k.
 Proof.
   induction n as [|n IH]; intros i l ch l' H; simpl in H.
   - injection H as <- <-. repeat split; auto. intros k Hk. lia.
   - destruct (first_dep succ l (nth i l 0)) as [p|] eqn:E.
-    + destruct (Nat.ltb_spec p i) as [Hlt|Hge].
+    + destruct (Nat.eqb_spec p i) as [Heq|Hne]; [discriminate|].
+      destruct (Nat.ltb_spec p i) as [Hlt|Hge].
       * apply pass_from_true in H. discriminate.
       * apply IH in H. destruct H as (H1 & H2 & H3). repeat split; auto.
-        intros k Hk. destruct (Nat.eq_dec k i) as [->|Hne]; [|apply H3; lia].
+        intros k Hk. destruct (Nat.eq_dec k i) as [->|Hnk]; [|apply H3; lia].
         intros s Hs. apply first_dep_some in E. destruct E as [_ E]. specialize (E s Hs). lia.
     + apply IH in H. destruct H as (H1 & H2 & H3). repeat split; auto.
-      intros k Hk. destruct (Nat.eq_dec k i) as [->|Hne]; [|apply H3; lia].
+      intros k Hk. destruct (Nat.eq_dec k i) as [->|Hnk]; [|apply H3; lia].
       intros s Hs. apply first_dep_none in E. rewrite E in Hs. destruct Hs.
+Qed.
+
+(* the loop error names a leaf that really feeds itself *)
+Lemma pass_from_loop : forall n i l ch x, i + n = length l -> NoDup l -> closed succ l ->
+  pass_from succ n i l ch = PassLoop x -> In x l /\ In x (succ x).
+Proof.
+  induction n as [|n IH]; intros i l ch x Hlen Hnd Hc H; simpl in H; [discriminate|].
+  assert (Hi : i < length l) by lia.
+  destruct (first_dep succ l (nth i l 0)) as [p|] eqn:E.
+  - destruct (Nat.eqb_spec p i) as [Heq|Hne].
+    + injection H as <-. assert (Hx : In (nth i l 0) l) by (apply nth_In; exact Hi). split; [exact Hx|].
+      apply first_dep_some in E. destruct E as [(s & Hs & Eidx) _].
+      assert (Hsl : In s l) by (eapply Hc; eauto).
+      destruct (index_of_in l s Hsl) as [_ En]. rewrite Eidx, Heq in En. rewrite En in Hs |- *. exact Hs.
+    + destruct (Nat.ltb_spec p i) as [Hlt|Hge].
+      * assert (P : Permutation l (swap l p i)) by (apply swap_perm; lia).
+        apply IH in H; [| rewrite swap_length; lia | eapply Permutation_NoDup; eauto
+                        | intros a b Ha Hb; eapply Permutation_in; [exact P|];
+                          eapply Hc; [eapply Permutation_in; [apply Permutation_sym, P|exact Ha]|exact Hb]].
+        destruct H as [Hx Hs]. split; [eapply Permutation_in; [apply Permutation_sym, P|exact Hx]|exact Hs].
+      * eapply IH; [| | |exact H]; auto; lia.
+  - eapply IH; [| | |exact H]; auto; lia.
 Qed.
 
 Lemma closed_perm l l' : Permutation l l' -> closed succ l -> closed succ l'.
@@ -140,7 +165,7 @@ Proof.
   eapply H; [|exact Hy]. eapply Permutation_in; [apply Permutation_sym, P|exact Hx].
 Qed.
 
-Lemma quiet_topo l : NoDup l -> (forall k, k < length l -> quiet_at l k) -> topo succ l.
+Lemma quiet_topo l : NoDup l -> (forall k, k < length l -> quiet_at l k) -> strict_topo succ l.
 Proof.
   intros Hnd Hq i j x y Hi Hj Hy.
   apply nth_error_nth' in Hi. destruct Hi as [Hlt Hx].
@@ -150,10 +175,10 @@ Qed.
 
 (* ------------------------------------------------------------------ soundness *)
 Lemma sort_fuel_sound : forall K l l', NoDup l ->
-  sort_fuel succ K l = Some l' -> Permutation l l' /\ topo succ l'.
+  sort_fuel succ K l = Sorted l' -> Permutation l l' /\ strict_topo succ l'.
 Proof.
   induction K as [|K IH]; intros l l' Hnd H; simpl in H; [discriminate|].
-  unfold pass in H. destruct (pass_from succ (length l) 0 l false) as [l1 ch] eqn:E.
+  unfold pass in H. destruct (pass_from succ (length l) 0 l false) as [l1 ch|x] eqn:E; [|discriminate].
   pose proof (pass_from_perm _ _ _ _ _ _ (eq_refl : 0 + length l = length l) E) as P.
   destruct ch.
   - apply IH in H; [|eapply Permutation_NoDup; eauto].
@@ -162,12 +187,20 @@ Proof.
     split; [apply Permutation_refl|]. apply quiet_topo; auto. intros k Hk. apply Hq. lia.
 Qed.
 
-Lemma topo_strict l : NoDup l -> topo succ l -> (forall x, In x l -> ~ In x (succ x)) -> strict_topo succ l.
+Lemma sort_fuel_loop : forall K l x, NoDup l -> closed succ l ->
+  sort_fuel succ K l = LoopError x -> In x l /\ In x (succ x).
 Proof.
-  intros Hnd T Hs i j x y Hi Hj Hy.
-  specialize (T i j x y Hi Hj Hy). destruct (Nat.eq_dec i j) as [->|]; [|lia].
-  rewrite Hi in Hj. injection Hj as <-. exfalso. apply (Hs x); [eapply nth_error_In; eauto|assumption].
+  induction K as [|K IH]; intros l x Hnd Hc H; simpl in H; [discriminate|].
+  unfold pass in H. destruct (pass_from succ (length l) 0 l false) as [l1 ch|y] eqn:E.
+  - pose proof (pass_from_perm _ _ _ _ _ _ (eq_refl : 0 + length l = length l) E) as P.
+    destruct ch; [|discriminate].
+    apply IH in H; [| eapply Permutation_NoDup; eauto | eapply closed_perm; eauto].
+    destruct H as [Hx Hs]. split; [eapply Permutation_in; [apply Permutation_sym, P|exact Hx]|exact Hs].
+  - injection H as <-. eapply pass_from_loop; [| | |exact E]; auto.
 Qed.
+
+Lemma strict_is_topo l : strict_topo succ l -> topo succ l.
+Proof. intros T i j x y Hi Hj Hy. specialize (T i j x y Hi Hj Hy). lia. Qed.
 
 (* ------------------------------------------------------------------ cycles are rejected *)
 Lemma path_in l x y : closed succ l -> In x l -> path succ x y -> In y l.
@@ -176,8 +209,8 @@ Proof.
   apply IH. eapply Hc; eauto.
 Qed.
 
-Lemma topo_path l x y : NoDup l -> closed succ l -> topo succ l -> In x l -> path succ x y ->
-  index_of x l <= index_of y l.
+Lemma strict_topo_path l x y : NoDup l -> closed succ l -> strict_topo succ l -> In x l -> path succ x y ->
+  index_of x l < index_of y l.
 Proof.
   intros Hnd Hc T Hx P. induction P as [x y E|x y z E P IH].
   - assert (Hy : In y l) by (eapply Hc; eauto).
@@ -190,28 +223,40 @@ Proof.
     pose proof (T i j x y Hi Hj E). lia.
 Qed.
 
-Lemma cycle_not_topo l : NoDup l -> closed succ l -> has_cycle2 succ l -> ~ topo succ l.
+(* any cycle (a leaf that reaches itself through >= 1 edge: self-loops included) rules out a strict order *)
+Lemma cyclic_not_strict l : NoDup l -> closed succ l -> (exists v, In v l /\ path succ v v) -> ~ strict_topo succ l.
 Proof.
-  intros Hnd Hc (x & y & Hx & Hne & Pxy & Pyx) T.
-  assert (Hy : In y l) by (eapply path_in; eauto).
-  pose proof (topo_path l x y Hnd Hc T Hx Pxy). pose proof (topo_path l y x Hnd Hc T Hy Pyx).
-  apply Hne. destruct (index_of_in l x Hx) as [_ Ex]. destruct (index_of_in l y Hy) as [_ Ey].
-  rewrite <- Ex, <- Ey. f_equal. lia.
+  intros Hnd Hc (v & Hv & P) T. pose proof (strict_topo_path l v v Hnd Hc T Hv P). lia.
 Qed.
 
-Lemma has_cycle2_perm l l' : Permutation l l' -> has_cycle2 succ l -> has_cycle2 succ l'.
+Lemma sort_fuel_cyclic K l l' : NoDup l -> closed succ l -> (exists v, In v l /\ path succ v v) ->
+  sort_fuel succ K l <> Sorted l'.
 Proof.
-  intros P (x & y & Hx & H). exists x, y. split; [eapply Permutation_in; eauto|exact H].
-Qed.
-
-Lemma sort_fuel_cycle K l : NoDup l -> closed succ l -> has_cycle2 succ l -> sort_fuel succ K l = None.
-Proof.
-  intros Hnd Hc Hcy. destruct (sort_fuel succ K l) as [l'|] eqn:E; [|reflexivity].
-  exfalso. apply sort_fuel_sound in E; auto. destruct E as [P T].
-  eapply (cycle_not_topo l'); eauto.
+  intros Hnd Hc (v & Hv & Pv) E. apply sort_fuel_sound in E; auto. destruct E as [P T].
+  eapply (cyclic_not_strict l'); eauto.
   - eapply Permutation_NoDup; eauto.
   - eapply closed_perm; eauto.
-  - eapply has_cycle2_perm; eauto.
+  - exists v. split; [eapply Permutation_in; eauto|exact Pv].
+Qed.
+
+Lemma path_trans x y z : path succ x y -> path succ y z -> path succ x z.
+Proof.
+  intros P Q. induction P as [x y E|x y w E P IH]; [eapply path_step; eauto|].
+  eapply path_step; [exact E|]. apply IH. exact Q.
+Qed.
+
+Lemma has_cycle2_cyclic l : has_cycle2 succ l -> exists v, In v l /\ path succ v v.
+Proof.
+  intros (x & y & Hx & _ & Pxy & Pyx). exists x. split; [exact Hx|]. eapply path_trans; eauto.
+Qed.
+
+(* without a self-feeding leaf the refusal of a cycle is always the pass limit *)
+Lemma sort_fuel_cycle2_limit K l : NoDup l -> closed succ l -> has_cycle2 succ l ->
+  (forall x, In x l -> ~ In x (succ x)) -> sort_fuel succ K l = LimitError.
+Proof.
+  intros Hnd Hc Hcy Hns. destruct (sort_fuel succ K l) as [l'|x|] eqn:E; [| |reflexivity].
+  - exfalso. eapply sort_fuel_cyclic; eauto. now apply has_cycle2_cyclic.
+  - exfalso. apply sort_fuel_loop in E; auto. destruct E as [Hx Hs]. exact (Hns x Hx Hs).
 Qed.
 
 (* ------------------------------------------------------------------ the swap measure *)
@@ -273,43 +318,50 @@ Proof.
   destruct (index_of_in l s Hsl) as [_ En]. rewrite Eidx in En. rewrite En. apply Hr; auto.
 Qed.
 
-Lemma pass_from_measure : forall n i l ch l' ch', i + n = length l -> closed succ l -> ranking succ l d ->
-  pass_from succ n i l ch = (l', ch') ->
+Lemma ranking_no_selfloop l x : ranking succ l d -> In x l -> ~ In x (succ x).
+Proof. intros Hr Hx Hs. pose proof (Hr x x Hx Hs). lia. Qed.
+
+Lemma pass_from_measure : forall n i l ch, i + n = length l -> NoDup l -> closed succ l -> ranking succ l d ->
+  exists l' ch', pass_from succ n i l ch = PassOk l' ch' /\
   Msum 0 l <= Msum 0 l' /\ (ch = false -> ch' = true -> Msum 0 l < Msum 0 l').
 Proof.
-  induction n as [|n IH]; intros i l ch l' ch' Hlen Hc Hr H; simpl in H.
-  - injection H as <- <-. split; [lia|]. intros ->. discriminate.
+  induction n as [|n IH]; intros i l ch Hlen Hnd Hc Hr; simpl.
+  - exists l, ch. split; [reflexivity|]. split; [lia|]. intros ->. discriminate.
   - destruct (first_dep succ l (nth i l 0)) as [p|] eqn:E.
-    + destruct (Nat.ltb_spec p i) as [Hlt|Hge].
-      * pose proof (step_increases l i p Hc Hr ltac:(lia) E Hlt) as Hinc.
-        assert (P : Permutation l (swap l p i)) by (apply swap_perm; lia).
-        apply IH in H; [| rewrite swap_length; lia | eapply closed_perm; eauto | eapply ranking_perm; eauto].
-        destruct H as [H _]. split; [lia|]. intros _ _. lia.
-      * apply IH in H; auto; lia.
-    + apply IH in H; auto; lia.
+    + destruct (Nat.eqb_spec p i) as [Heq|Hne].
+      * exfalso. assert (Hp : pass_from succ (S n) i l ch = PassLoop (nth i l 0)) by (simpl; rewrite E, Heq, Nat.eqb_refl; reflexivity).
+        apply pass_from_loop in Hp; auto. destruct Hp as [Hx Hs]. exact (ranking_no_selfloop l _ Hr Hx Hs).
+      * destruct (Nat.ltb_spec p i) as [Hlt|Hge].
+        -- pose proof (step_increases l i p Hc Hr ltac:(lia) E Hlt) as Hinc.
+           assert (P : Permutation l (swap l p i)) by (apply swap_perm; lia).
+           destruct (IH (S i) (swap l p i) true) as (l' & ch' & H & Hle & _);
+             [ rewrite swap_length; lia | eapply Permutation_NoDup; eauto | eapply closed_perm; eauto | eapply ranking_perm; eauto |].
+           exists l', ch'. split; [exact H|]. split; [lia|]. intros _ _. lia.
+        -- destruct (IH (S i) l ch) as (l' & ch' & H & Hle & Hlt); auto; [lia|]. exists l', ch'. auto.
+    + destruct (IH (S i) l ch) as (l' & ch' & H & Hle & Hlt); auto; [lia|]. exists l', ch'. auto.
 Qed.
 
 (* ------------------------------------------------------------------ termination *)
-Lemma sort_fuel_terminates_aux : forall m l, closed succ l -> ranking succ l d ->
-  length l * sumd l - Msum 0 l < m -> forall K, m <= K -> exists l', sort_fuel succ K l = Some l'.
+Lemma sort_fuel_terminates_aux : forall m l, NoDup l -> closed succ l -> ranking succ l d ->
+  length l * sumd l - Msum 0 l < m -> forall K, m <= K -> exists l', sort_fuel succ K l = Sorted l'.
 Proof.
-  induction m as [|m IH]; intros l Hc Hr Hm K HK; [lia|].
+  induction m as [|m IH]; intros l Hnd Hc Hr Hm K HK; [lia|].
   destruct K as [|K]; [lia|]. simpl. unfold pass.
-  destruct (pass_from succ (length l) 0 l false) as [l1 ch] eqn:E.
-  destruct ch; [|eexists; reflexivity].
+  destruct (pass_from_measure (length l) 0 l false eq_refl Hnd Hc Hr) as (l1 & ch & E & _ & Hinc).
+  rewrite E. destruct ch; [|eexists; reflexivity].
   pose proof (pass_from_perm _ _ _ _ _ _ (eq_refl : 0 + length l = length l) E) as P.
-  pose proof (pass_from_measure _ _ _ _ _ _ (eq_refl : 0 + length l = length l) Hc Hr E) as [_ Hinc].
   specialize (Hinc eq_refl eq_refl).
-  apply IH; [eapply closed_perm; eauto | eapply ranking_perm; eauto | | lia].
+  apply IH; [eapply Permutation_NoDup; eauto | eapply closed_perm; eauto | eapply ranking_perm; eauto | | lia].
   pose proof (Msum_bound l1 0) as Hb. simpl in Hb.
   rewrite <- (Permutation_length P), <- (sumd_perm _ _ P) in *. lia.
 Qed.
 
-Lemma sort_fuel_terminates l : closed succ l -> ranking succ l d ->
-  forall l0, Permutation l l0 -> forall K, S (length l * sumd l) <= K -> exists l', sort_fuel succ K l0 = Some l'.
+Lemma sort_fuel_terminates l : NoDup l -> closed succ l -> ranking succ l d ->
+  forall l0, Permutation l l0 -> forall K, S (length l * sumd l) <= K -> exists l', sort_fuel succ K l0 = Sorted l'.
 Proof.
-  intros Hc Hr l0 P K HK.
+  intros Hnd Hc Hr l0 P K HK.
   apply (sort_fuel_terminates_aux (S (length l * sumd l))); auto.
+  - eapply Permutation_NoDup; eauto.
   - eapply closed_perm; eauto.
   - eapply ranking_perm; eauto.
   - rewrite <- (Permutation_length P), <- (sumd_perm _ _ P). lia.
